@@ -54,12 +54,19 @@ def shape_runs(db):
 
 
 def obligations_by_site(runs):
-    by = {}
+    # A site inside a helper is judged in the contexts of the handlers that reach it (the helper is interpreted inline with their
+    # operands).  The standalone interpretation of the helper, with symbolic parameters, only counts for sites that no handler
+    # context reaches: otherwise factoring a fragment of a handler out into a helper would turn proved obligations into open ones.
+    inline, alone = {}, {}
     for h, r in runs.items():
         if r is None:
             continue
         for o in r.obl:
-            by.setdefault((o["fn"], o["line"]), []).append(o["verdict"])
+            (alone if o["fn"] == h else inline).setdefault((o["fn"], o["line"]), []).append(o["verdict"])
+    by = dict(inline)
+    for k, v in alone.items():
+        if k not in inline:
+            by[k] = v
     return by
 
 
